@@ -43,7 +43,7 @@ def collect():
             print("incomplete", out); continue
         shutil.copytree(out, dst)
         print("collected", dst)
-    for out in sorted(glob.glob("/tmp/wt4/A*/_out/C*-m*")):        # round 4: one agent per pair of properties
+    for out in sorted(glob.glob("/tmp/wt4/A*/_out/C*-m*") + glob.glob("/tmp/wt5/R*/_out/C*-m*")):        # rounds 4, 5: several properties per agent
         dst = os.path.join(S, os.path.basename(out))
         if os.path.exists(dst):
             continue
@@ -126,14 +126,19 @@ AREA_PROPS = {"B1": ["C01", "C02", "C03", "C05", "C06", "C07", "C15", "C16", "C1
               "B3": ["C15", "C16", "C17", "C18", "C20", "C02"],
               "B4": ["C11", "C12", "C13", "C14", "C15", "C04"],
               "B5": ["C18"],
-              "B6": ["C19"]}
+              "B6": ["C19"],
+              "B7": ["C03", "C09", "C10", "C12", "C15", "C01"],
+              "B8": ["C02", "C04", "C07", "C10", "C05", "C15", "C01"],
+              "B9": ["C13", "C14", "C11", "C12", "C20", "C15"],
+              "B10": ["C18", "C17", "C08", "C19", "C15"]}
 
 
 def benign_collect():
-    for out in sorted(glob.glob("/tmp/wtb/B*/_out/b*")):
+    for out in sorted(glob.glob("/tmp/wtb/B*/_out/b*") + glob.glob("/tmp/wtb2/B*/_out/b*")):
         area = out.split("/")[3]
         dst = os.path.join(S, "benign-%s-%s" % (area, os.path.basename(out)))
-        if os.path.exists(dst) or not all(os.path.exists(os.path.join(out, f)) for f in ("patch.diff", "check.py", "meta.json")):
+        own = "check.py" if os.path.exists(os.path.join(out, "check.py")) else "equiv.py"
+        if os.path.exists(dst) or not all(os.path.exists(os.path.join(out, f)) for f in ("patch.diff", own, "meta.json")):
             continue
         shutil.copytree(out, dst)
         print("collected", dst)
@@ -151,7 +156,7 @@ def benign_run(sel, tier="quick"):
             if sh("git -C %s apply %s/patch.diff" % (wt, d)).returncode:
                 print(i, "PATCH DOES NOT APPLY"); continue
             env = dict(os.environ, PYTHONPATH=wt, MPLBACKEND="Agg", PYTHONDONTWRITEBYTECODE="1")
-            own = sh("%s %s/check.py" % (PY, d), env=env, cwd=wt, timeout=3600)
+            own = sh("%s %s/%s" % (PY, d, "check.py" if os.path.exists(os.path.join(d, "check.py")) else "equiv.py"), env=env, cwd=wt, timeout=3600)
             suite = sh("%s -m pytest -q -p no:cacheprovider 2>&1 | tail -1" % PY, cwd=wt, env=env, timeout=1800)
             results.setdefault(i, {})["own_check_exit"] = own.returncode
             results[i]["suite"] = suite.stdout.strip()[-60:]
